@@ -725,3 +725,9 @@ def network_forwarded(ctx):
                                     'a transaction parsed with a Network object after an earlier parse of another network reports every standard script with the earlier network\'s address (tb1q... shown as bc1q...)')
     ctx.saw('%d `network=` arguments inside functions that take a network: each passes the function\'s own' % n)
     ctx.floor(n, 20, 'network arguments')
+
+
+from . import c04 as _c04
+PROP.obligation('C05.address-cache', canaries=[
+    mut.replace_expr('keys', 'Key.address', 'self._address_obj.network == self.network', 'True', 'an output to a key object reports the address of the network the key had before network_change'),
+])(_c04.address_cache)
